@@ -184,9 +184,78 @@ def routes_fn(tc, aval):
     return ROUTES
 
 
+# ---------------------------------------------------------------------------
+# depth-2 presence through lazily created sub-messages (the README's `m.a.b.c = v` idiom)
+
+def nested_inplace(ctx: Ctx) -> int:
+    """All assignment sequences of length <= 2 inside G{P p}, P{Sub sub; int32 v}, Sub{a, s}
+    through lazily created sub-messages; emission must match serialized_on_wire at every
+    level and the reference's HasField on the same bytes."""
+    import itertools
+    from vf.core.runner import Violation
+    from vf.core.schema import Field, Msg, Schema, build_bp, build_ref
+    from vf.core.universe import LIB_MSGS, COLOR
+
+    schema = Schema("vfc06n", (COLOR,), LIB_MSGS + (
+        Msg("P", (Field("sub", 1, "msg:Sub"), Field("v", 2, "int32"))),
+        Msg("G", (Field("p", 1, "msg:P"), Field("w", 2, "int32"))),
+    ))
+    bp = build_bp(schema, "vf_c06_nested")
+    ref = build_ref(schema)
+    ops = [("p.sub.a", 0), ("p.sub.a", 1), ("p.sub.s", ""), ("p.sub.s", "x"), ("p.v", 0), ("p.v", 1),
+           ("w", 1), ("read:p", None), ("read:p.sub", None), ("read:p.sub.a", None)]
+    n = 0
+    for ln in (1, 2, 3):
+        for seq in itertools.product(range(len(ops)), repeat=ln):
+            if ln == 3 and not (ops[seq[0]][0].startswith("read") or ops[seq[2]][0].startswith("read")):
+                continue
+            n += 1
+            g = bp.G()
+            assigned = set()
+            for i in seq:
+                path, val = ops[i]
+                parts = path.replace("read:", "").split(".")
+                cur = g
+                for part in parts[:-1]:
+                    cur = getattr(cur, part)
+                if path.startswith("read:"):
+                    getattr(cur, parts[-1])
+                else:
+                    setattr(cur, parts[-1], val)
+                    assigned.add(path)
+            data = bytes(g)
+            r = ref.cls("G").FromString(data)
+            want_p = any(a.startswith("p.") for a in assigned)
+            want_sub = any(a.startswith("p.sub.") for a in assigned)
+            got = {
+                "p.on_wire": r.HasField("p"), "p.sow": betterproto.serialized_on_wire(g.p),
+                "sub.on_wire": r.HasField("p") and r.p.HasField("sub"),
+                "sub.sow": betterproto.serialized_on_wire(g.p.sub),
+            }
+            label = [ops[i][0] + ("" if ops[i][1] is None else "=" + repr(ops[i][1])) for i in seq]
+            probs = []
+            if got["p.on_wire"] != got["p.sow"]:
+                probs.append(("nested-emission-vs-serialized_on_wire", "p"))
+            if got["sub.on_wire"] != got["sub.sow"]:
+                probs.append(("nested-emission-vs-serialized_on_wire", "p.sub"))
+            # (the property's criterion is emission <=> serialized_on_wire; whether an assignment
+            #  two levels down should also mark the intermediate message is not demanded)
+            if got["p.on_wire"] and not want_p:
+                probs.append(("nested-emitted-unassigned", "p"))
+            if got["sub.on_wire"] and not want_sub:
+                probs.append(("nested-emitted-unassigned", "p.sub"))
+            for oracle, level in probs:
+                depth = "depth2" if level == "p.sub" or any(a.startswith("p.sub.") for a in assigned) else "depth1"
+                ctx.add(Violation([oracle, level, depth, "default-only" if all(ops[i][1] in (0, "", None) for i in seq) else "non-default"],
+                                  f"G(): {label}: {got}, assigned inside p: {want_p}, inside p.sub: {want_sub}; bytes={data.hex()}",
+                                  {"nested_inplace": [list(ops[i]) for i in seq]}))
+    return n
+
+
 def run(ctx: Ctx) -> None:
     u = get_universe(ctx.tier)
     t = run_universe(ctx, u, oracle_routed, routes_fn)
+    nested_cases = nested_inplace(ctx)
     ctx.coverage.update(
         states=t.n.get("cases", 0),
         transitions=t.n.get("edges", 0),
@@ -195,6 +264,7 @@ def run(ctx: Ctx) -> None:
         message_types=len(u.types),
         abstract_values=u.count(),
         routes=list(ROUTES),
+        nested_inplace_sequences=nested_cases,
         distinct_encodings=len(t.sets.get("outcomes", ())),
         failures_explained_by_restriction=t.n.get("failures_explained_by_restriction", 0),
         samples=t.samples,
@@ -210,4 +280,11 @@ def run(ctx: Ctx) -> None:
 
 
 def replay(case: dict):
+    if "nested_inplace" in case:
+        # re-run the (tiny) nested exploration and return what it reports for this sequence
+        from vf.core.runner import Ctx as _C
+        c = _C("C06", "quick", 0, LEVEL)
+        c.findings = []
+        nested_inplace(c)
+        return [v for v in c.violations if v.case == case]
     return replay_case(oracle_routed, case, get_universe)
